@@ -35,6 +35,8 @@ THEOREMS = [
     "Mpc.C07_arrayMult",
     "Mpc.C07_karatsuba",
     "Mpc.C07_mul_yao",
+    "Mpc.C07_wallace",
+    "Mpc.C07_mul_gmw",
     "Mpc.C07_udiv",
     "Mpc.C07_umod",
     "Mpc.C07_idiv_equal_width",
@@ -157,15 +159,18 @@ def run(ctx):
         "Karatsuba limits below 3 are excluded (the Go recursion does not terminate; the compiler uses limits >= 8)",
     ]
     return ctx.finish(
-        "Theorems (Props/C07.lean, all operand/result widths, all values, both prologue variants): ripple adder exact; "
-        "ripple subtractor exact for every result width; unsigned comparators; signed comparators "
-        "(exact for equal widths, zero-extension semantics otherwise, negation witness); Eq/Neq; MUX; bitwise "
-        "AND/OR/XOR/Clear; logical AND/OR; bit tests; NewIndex; Hamming (Yao, width >= 1); Kogge-Stone adder/subtractor "
-        "(all widths, stage count shown necessary); array multiplier (all operand and result widths); bridge lemma to the C01 plain evaluator. "
+        "Theorems (Props/C07.lean, all operand/result widths, all values, both prologue variants): ripple adder and "
+        "subtractor; Kogge-Stone adder and subtractor (prefix-network interval invariant; too few stages shown wrong); "
+        "unsigned comparators; signed comparators (exact for equal widths, zero-extension semantics otherwise, negation "
+        "witness); Eq/Neq; MUX; bitwise AND/OR/XOR/Clear; logical AND/OR; bit tests; NewIndex; Hamming (both targets); "
+        "array multiplier (row-accumulation invariant); Karatsuba for every threshold >= 3 and NewMultiplier on the Yao "
+        "target; Wallace multiplier (column-sum invariant) and NewMultiplier on the GMW target; long divider "
+        "(restoring-division invariant, non-zero divisor, result width <= operand width) and NewIDivider for equal "
+        "operand widths (quotient truncates toward zero, remainder |a| mod |b|); bridge lemma to the C01 plain evaluator. "
         "Tie T4: for every modelled builder (adders, subtractors incl. Kogge-Stone, array/Karatsuba/Wallace "
-        "multipliers, comparators, MUX, index, bitwise, Hamming) the Lean generator reproduces the real cc.Gates "
+        "multipliers, long divider, signed divider (Yao), comparators, MUX, index, bitwise, Hamming) the Lean generator reproduces the real cc.Gates "
         "gate for gate (canonical first-occurrence numbering) on all width triples listed under coverage; T3: sample "
-        "evaluations and the Lean Circuit.compute on Go-compiled circuits (dividers: evaluator only). Oracle: real "
+        "evaluations and the Lean Circuit.compute on Go-compiled circuits (Goldschmidt / restoring / array dividers: evaluator only). Oracle: real "
         "builder -> Compile -> bit-sliced evaluation vs math/big, exhaustive at small widths, sampled to 130 bits, "
         "cross-checked with Circuit.Compute and with the raw cc.Gates order. Known findings are matched on "
         "(algorithm, width relation, failure class) so other failures of the same builder are still reported.")
